@@ -307,6 +307,14 @@ func (e *Env) Do(op Op) *Violation {
 		if n, err := e.DB.FileSize(); err != nil || n <= 0 {
 			return violf("api-error", "FileSize = %d, %v", n, err)
 		}
+	case "backup":
+		dir := fmt.Sprintf("bk%d", e.nAPI)
+		if err := e.DB.Backup(dir); err != nil {
+			return violf("api-error", "Backup: %v", err)
+		}
+		if v := e.verifyBackup(dir); v != nil {
+			return v
+		}
 	default:
 		panic("unknown op " + op.K)
 	}
@@ -451,5 +459,37 @@ func (e *Env) CheckStructure(closed bool) *Violation {
 	if st.Split > 0 {
 		e.Probes["split_pointer_mid_level"]++
 	}
+	return nil
+}
+
+// verifyBackup opens the backup directory as a database of its own (on a copy of its files), compares it
+// with the model and removes the directory from the simulated disk.
+func (e *Env) verifyBackup(dir string) *Violation {
+	im := NewImage()
+	for _, n := range e.FS.FileNames() {
+		if strings.HasPrefix(n, dir+"/") {
+			im.Files[dbDir+"/"+strings.TrimPrefix(n, dir+"/")] = &FileState{Durable: append([]byte(nil), e.FS.FileBytes(n)...)}
+		}
+	}
+	im.Dirs[dbDir] = true
+	e.FS.RemoveTree(dir)
+	b := NewEnv(e.Cfg, e.Keys, im, false)
+	b.NoRetain = true
+	defer func() {
+		e.InstallSeedSource()
+		pogreb.SetLogger(log.New(e.LogBuf, "", 0))
+	}()
+	if err := b.Open(); err != nil {
+		return violf("backup-does-not-open", "Open(backup): %v", err)
+	}
+	b.Model = e.Model
+	if v := b.CheckContents(); v != nil {
+		v.Class = "backup-" + v.Class
+		return v
+	}
+	if err := b.DB.Close(); err != nil {
+		return violf("backup-does-not-close", "Close(backup): %v", err)
+	}
+	e.Probes["backup_verified"]++
 	return nil
 }
